@@ -225,7 +225,7 @@ func (g *Gen) array(path string, bits int) (int, func(i int) uint64) {
 }
 
 func (g *Gen) note(path string, v interface{}) {
-	if len(g.Used) < 400 {
+	if len(g.Used) < 60 {
 		g.Used[path] = fmt.Sprint(v)
 	}
 }
@@ -291,8 +291,12 @@ func Main(body func(g *Gen)) {
 	}
 	isViolation := func(o Outcome) bool {
 		switch o.Kind {
-		case "fail", "panic":
+		case "fail":
 			return true
+		case "panic":
+			// a run-time panic confirms a safety obligation; for other classes the input
+			// may lie outside the domain of an assumed (trusted) callee contract
+			return f.Class == "S" || f.Class == "U" || f.Class == "P"
 		case "timeout":
 			return f.Class == "D" || f.Class == "U"
 		}
